@@ -576,13 +576,14 @@ Definition nb_spec (fmt : Z) (reqs : list nbreq) : Z * list (Z * Z * list (Z * Z
 (* blocking ncmpi_put_varn_<T>[_all] (ncmpio_varn.m4) = iput_varn + wait; element kind 2 = left untouched.
    result: (status, pending requests afterwards, status of ncmpi_close, elements) *)
 Definition untouched (cs : list Z) : list (Z * Z) := map (fun _ => (2, 0)) cs.
-Definition varn_model (indep : bool) (fmt xi ii : Z) (cs : list Z) : Z * Z * Z * list (Z * Z) :=
+Definition varn_model_g (g : varn_kind) (indep : bool) (fmt xi ii : Z) (cs : list Z) : Z * Z * Z * list (Z * Z) :=
   let '(st, rs) := api_model false true fmt xi ii false 0 cs in
-  match varn_gate with
+  match g with
   | VarnEarlyAny => if indep && negb (st =? NC_NOERR) then (st, 1, NC_EPENDING, untouched cs) else (st, 0, NC_NOERR, rs)
-  | VarnEarlyFatal => (st, 0, NC_NOERR, rs)
+  | VarnEarlyFatal => (st, 0, NC_NOERR, rs)      (* the only status <> NC_NOERR a conversion yields is NC_ERANGE *)
   | VarnUnrec => (-9999, 0, 0, map (fun _ => (4, 0)) cs)
   end.
+Definition varn_model := varn_model_g varn_gate.
 Definition varn_spec (fmt xi ii : Z) (cs : list Z) : Z * Z * Z * list (Z * Z) :=
   let '(st, rs) := api_spec true fmt xi ii false 0 cs in (st, 0, NC_NOERR, rs).
 
@@ -595,12 +596,27 @@ Fixpoint mput_model_loop (fmt xi ii : Z) (vars : list (list Z)) : Z * list (Z * 
                if st =? NC_NOERR then let '(st', rs') := mput_model_loop fmt xi ii r in (st', rs ++ rs')
                else (st, untouched cs ++ flat_map untouched r)
   end.
-Definition mput_model (fmt xi ii : Z) (vars : list (list Z)) : Z * Z * Z * list (Z * Z) :=
-  match mput_gate with
+(* repaired loop: NC_ERANGE is remembered and the posting continues; any other status leaves the loop
+   (that request was not queued); all posted requests are waited for *)
+Fixpoint mput_cont_loop (fmt xi ii : Z) (vars : list (list Z)) (erange : Z) : Z * Z * list (Z * Z) :=
+  match vars with
+  | [] => (NC_NOERR, erange, [])
+  | cs :: r => let '(st, rs) := api_model false true fmt xi ii false 0 cs in
+               if st =? NC_ERANGE then
+                 let '(e, er, rs') := mput_cont_loop fmt xi ii r st in (e, er, rs ++ rs')
+               else if st =? NC_NOERR then
+                 let '(e, er, rs') := mput_cont_loop fmt xi ii r erange in (e, er, rs ++ rs')
+               else (st, erange, untouched cs ++ flat_map untouched r)
+  end.
+Definition mput_model_g (g : mput_kind) (fmt xi ii : Z) (vars : list (list Z)) : Z * Z * Z * list (Z * Z) :=
+  match g with
   | MputBreakAny => let '(st, rs) := mput_model_loop fmt xi ii vars in
                     if st =? NC_NOERR then (st, 0, NC_NOERR, rs) else (st, 1, NC_EPENDING, rs)
+  | MputContinue => let '(e, er, rs) := mput_cont_loop fmt xi ii vars NC_NOERR in
+                    ((if e =? NC_NOERR then er else e), 0, NC_NOERR, rs)
   | MputUnrec => (-9999, 0, 0, flat_map (fun cs => map (fun _ => (4, 0)) cs) vars)
   end.
+Definition mput_model := mput_model_g mput_gate.
 Definition mput_spec (fmt xi ii : Z) (vars : list (list Z)) : Z * Z * Z * list (Z * Z) :=
   let rs := map (fun cs => api_spec true fmt xi ii false 0 cs) vars in
   ((if existsb (fun r => negb (fst r =? NC_NOERR)) rs then NC_ERANGE else NC_NOERR), 0, NC_NOERR,
